@@ -76,6 +76,7 @@ type Facts struct {
 	EmptyStmtCmts   bool // comments were allowed next to empty statements
 	AdjacentStrings int
 	MsgLiterals     int
+	AnyLiterals     int
 	AngleLiterals   int
 	ArrayLiterals   int
 	DupImports      int
@@ -361,7 +362,7 @@ type custOpt struct {
 
 var custOpts = []custOpt{
 	{"cfg", "Cfg", false}, {"tag", "string", true}, {"num", "int32", true}, {"str", "string", false},
-	{"flag", "bool", false}, {"dbl", "double", false}, {"kind", "Kind", false}, {"cfgs", "Cfg", true},
+	{"flag", "bool", false}, {"dbl", "double", false}, {"kind", "Kind", false}, {"cfgs", "Cfg", true}, {"any", "Any", false},
 }
 
 func (g *fgen) qual(name string) string {
@@ -474,7 +475,7 @@ type cfgField struct {
 var cfgFields = []cfgField{
 	{"s", "string", false}, {"i", "int32", false}, {"d", "double", false}, {"b", "bool", false}, {"ri", "int64", true},
 	{"rs", "string", true}, {"sub", "Cfg", false}, {"subs", "Cfg", true}, {"k", "Kind", false}, {"raw", "bytes", false},
-	{"f", "float", false}, {"rd", "double", true}, {"u64", "uint64", false},
+	{"f", "float", false}, {"rd", "double", true}, {"u64", "uint64", false}, {"any", "Any", false},
 }
 
 // litSep emits an optional separator of a message literal, tagged by the kind of value in front of it:
@@ -488,6 +489,48 @@ func (g *fgen) litSep(s string) {
 		}
 	}
 	g.p(s).tag = tag
+}
+
+// anyLiteral emits a google.protobuf.Any value in its expanded form: a message literal whose only field is
+// `[type.googleapis.com/<pkg>.Cfg]` with an empty or non-empty Cfg body.
+func (g *fgen) anyLiteral(depth int) {
+	g.litDepth++
+	defer func() { g.litDepth-- }()
+	g.facts.MsgLiterals++
+	g.facts.AnyLiterals++
+	op, cl := "{", "}"
+	if depth > 0 && g.pct("angle", 25) {
+		op, cl = "<", ">"
+		g.facts.AngleLiterals++
+	}
+	g.open(op)
+	t := g.p("[")
+	t.bol = true
+	g.dotted("type.googleapis.com", false)
+	g.p("/")
+	g.dotted(g.qual("Cfg"), false)
+	g.p("]")
+	if g.pct("colon", 60) {
+		g.p(":")
+	}
+	if g.pct("anyempty", 45) {
+		g.open(g.pick("anyemptyopen", "{", "{", "<"))
+		g.ind--
+		if g.toks[len(g.toks)-1].s == "<" {
+			g.p(">")
+		} else {
+			g.p("}")
+		}
+	} else {
+		g.msgLiteral(depth + 1)
+	}
+	switch g.intn("sep", 0, 3) {
+	case 0:
+		g.litSep(",")
+	case 1:
+		g.litSep(";")
+	}
+	g.close(cl)
 }
 
 // msgLiteral emits a message literal for a Cfg value.
@@ -511,7 +554,7 @@ func (g *fgen) msgLiteral(depth int) {
 		if g.litFocus && depth < 2 && g.pct("nestmore", 40) {
 			f = cfgFields[g.pick2("nestwhich", 6, 7)] // sub / subs
 		}
-		if f.typ == "Cfg" && depth >= 2 {
+		if (f.typ == "Cfg" || f.typ == "Any") && depth >= 2 {
 			f = cfgFields[0]
 		}
 		if !f.repeated && used[f.name] {
@@ -549,6 +592,11 @@ func (g *fgen) msgLiteral(depth int) {
 					g.p(":")
 				}
 				g.msgLiteral(depth + 1)
+			case f.typ == "Any":
+				if g.pct("colon", 60) {
+					g.p(":")
+				}
+				g.anyLiteral(depth + 1)
 			case f.repeated && g.pct("listform", 50):
 				g.p(":")
 				g.facts.ArrayLiterals++
@@ -772,9 +820,12 @@ func (g *fgen) customOptionNamed(target string, o custOpt) {
 	}
 	g.optNameCustom(name)
 	g.p("=")
-	if o.typ == "Cfg" {
+	switch o.typ {
+	case "Cfg":
 		g.msgLiteral(0)
-	} else {
+	case "Any":
+		g.anyLiteral(0)
+	default:
 		g.scalarValue(o.typ)
 	}
 }
@@ -1390,6 +1441,8 @@ func (g *fgen) prelude() {
 		}
 		if typ == "Cfg" || typ == "Kind" {
 			g.typeRef(g.qual(typ), first)
+		} else if typ == "Any" {
+			g.dotted(g.pick("anyref", "google.protobuf.Any", ".google.protobuf.Any"), first)
 		} else {
 			t := g.w(typ)
 			if first {
@@ -1530,7 +1583,8 @@ func genFile(t *rapid.T) (string, Facts) {
 	// imports
 	var imps []importStmt
 	if g.custom {
-		imps = append(imps, importStmt{path: "google/protobuf/descriptor.proto"})
+		imps = append(imps, importStmt{path: "google/protobuf/descriptor.proto"}, importStmt{path: "google/protobuf/any.proto"})
+		g.imported["google/protobuf/any.proto"] = true
 	}
 	nImp := g.intn("imports", 0, 4)
 	for i := 0; i < nImp; i++ {
